@@ -591,8 +591,12 @@ func runC02(r *hx.Result, cfg hx.Config) {
 		"tidwall/rtree Search reports exactly the entries whose float32 rectangle intersects the target (abstract container; sampled in-package against Model/Search.geo_search)",
 		"SPARSE leaf rectangles (float64 quad split) are not modelled: c02_sparse_sound holds for any leaves",
 	}
-	if os.Getenv("C02_ONLY") == "areas" { // development aid: only section (iv)
+	switch os.Getenv("C02_ONLY") { // development aid: one section only
+	case "areas":
 		areas(r, cfg)
+		return
+	case "reply":
+		replyStage(r, cfg)
 		return
 	}
 	rng := rand.New(rand.NewSource(cfg.Seed))
@@ -602,7 +606,8 @@ func runC02(r *hx.Result, cfg hx.Config) {
 	blackBox(r, cfg, rng)
 	extremeClustersBB(r, cfg, rng)
 	overlappedSearch(r, cfg, rng)
-	areas(r, cfg) // (iv) query-area parsers: areas.go (own PRNG stream)
+	areas(r, cfg)      // (iv) query-area parsers: areas.go (own PRNG stream)
+	replyStage(r, cfg) // (v) from the search result to the reply: reply.go (own PRNG stream)
 }
 
 // ---------------------------------------------------------------- clusters inside one float32 cell at the extreme
